@@ -11,7 +11,7 @@ try:
     if r.returncode != 0:
         print("patch failed", r.stdout[-300:]); sys.exit(2)
     for c in checks:
-        r = subprocess.run("cd /verif && MUDSLIDE_SRC=%s ./check %s --tier %s" % (cp, c, tier), shell=True, stdout=subprocess.PIPE, stderr=subprocess.STDOUT, text=True)
+        r = subprocess.run("cd /verif && VERIF_OUT=%s/_vout VERIF_EVIDENCE=%s/_vevid VERIF_NPROC=4 MUDSLIDE_SRC=%s ./check %s --tier %s" % (cp, cp, cp, c, tier), shell=True, stdout=subprocess.PIPE, stderr=subprocess.STDOUT, text=True)
         v = [l[:330] for l in r.stdout.splitlines() if l.startswith("VIOLATION")]
         print(os.path.basename(os.path.dirname(patch)), c, "rc=%d" % r.returncode, v[0] if v else "-- no violation --", flush=True)
 finally:
